@@ -1,2 +1,3 @@
 import Check.Grey
 import Check.Decode
+import Check.Encode
